@@ -105,6 +105,9 @@ class FitProperties(dict):
                         return
                 # Trigger `self.reset`
                 self.reset()
+            # Settings are stored by value, so that later in-place
+            # modifications of the caller's object can be detected.
+            value = copy.deepcopy(value)
         elif key not in FP_RESULTS:
             msg = "Key '{}' not in FP_DEFAULT".format(key)
             raise FitKeyError(msg)
